@@ -361,9 +361,9 @@ func genScript(t *rapid.T) *script {
 	s.DriftRate = rapid.OneOf(rapid.Float64Range(1e-9, 1e-3), rapid.Float64Range(1e-12, 1), rapid.SampledFrom([]float64{250e-6, 1e-6, 1})).Draw(t, "rate")
 	switch bad {
 	case 0:
-		s.R = rapid.SampledFrom([]float64{1, 0.5, 0, -1, math.Inf(-1)}).Draw(t, "badr")
+		s.R = rapid.SampledFrom([]float64{1, 0.5, 0, -1, math.Inf(-1), math.NaN()}).Draw(t, "badr")
 	case 1:
-		s.P = rapid.SampledFrom([]float64{1, 0.5, 0, -3}).Draw(t, "badp")
+		s.P = rapid.SampledFrom([]float64{1, 0.5, 0, -3, math.NaN()}).Draw(t, "badp")
 	case 2:
 		s.P = s.R + rapid.SampledFrom([]float64{1, 0.5, 0, 0.999999}).Draw(t, "badgap")
 	case 3:
@@ -424,7 +424,7 @@ func genScript(t *rapid.T) *script {
 	return s
 }
 
-var rec = ev.New("c01/sync-rounds", "rapid state histories: configuration (impact factors incl. nextafter(1) and +Inf, cutoff 0..MaxInt64, interval 2 ns..24 h, timeout 0..interval/2, drift rate 1e-12..1 or unknown; ~1/3 deliberately inadmissible), 0..7 reference clocks, 0..7 peers, 1..8 rounds; per round and source an offset from an int64 mixture dense at the cutoff and both bounds and an outcome (in time, error, late, blocks until cancelled, exactly at the timeout). sync.Run is executed for real in a synctest bubble with a scripted clock and a recording discipline. Oracle: refusal iff inadmissible and before any actuation; exactly one correction then Sleep(interval) per round; |corr| <= factor*Drift(interval) per the statement; exact reference model (FTM, cutoff, clamps, midpoint) for rounds in which every source answered in time. One evaluation = one round (or one refused configuration). Non-trivial: a clamp engaged, the cutoff suppressed the peers, both kinds contributed, or a source failed/was late; distinct by hash of (configuration, round answers)")
+var rec = ev.New("c01/sync-rounds", "rapid state histories: configuration (impact factors incl. nextafter(1), +Inf and, among the inadmissible ones, NaN, cutoff 0..MaxInt64, interval 2 ns..24 h, timeout 0..interval/2, drift rate 1e-12..1 or unknown; ~1/3 deliberately inadmissible), 0..7 reference clocks, 0..7 peers, 1..8 rounds; per round and source an offset from an int64 mixture dense at the cutoff and both bounds and an outcome (in time, error, late, blocks until cancelled, exactly at the timeout). sync.Run is executed for real in a synctest bubble with a scripted clock and a recording discipline. Oracle: refusal iff inadmissible and before any actuation; exactly one correction then Sleep(interval) per round; |corr| <= factor*Drift(interval) per the statement; exact reference model (FTM, cutoff, clamps, midpoint) for rounds in which every source answered in time. One evaluation = one round (or one refused configuration). Non-trivial: a clamp engaged, the cutoff suppressed the peers, both kinds contributed, or a source failed/was late; distinct by hash of (configuration, round answers)")
 
 func TestPropSyncLoop(t *testing.T) {
 	vt.Check(t, 60000, 300000, func(t *rapid.T) {
